@@ -1,6 +1,7 @@
 import DirectVerif.Gen.C17
 import DirectVerif.Model.Shapes
 import DirectVerif.Model.ShapesChan
+import DirectVerif.Lemmas.C17Nets
 /-!
 # Bridge C17 — the pad / crop arithmetic translated from `/repo` equals the hand-written shape model
 
@@ -26,15 +27,21 @@ theorem normunet_h_mult_eq (n : Nat) : normunet_h_mult n = (mult16 n : Int) := b
 theorem normunet3d_z_mult_eq (n : Nat) : normunet3d_z_mult n = (mult16 n : Int) := by
   first | exact pyOr_mult n | simp only [normunet3d_z_mult, Int.toNat_natCast]
 
-/-- `math.floor((m − n)/2)`, `math.ceil((m − n)/2)` -/
-theorem normunet_w_pad_lo_eq (m n : Nat) (h : n ≤ m) : normunet_w_pad_lo m n = (((m - n) / 2 : Nat) : Int) := by
-  simp only [normunet_w_pad_lo, Int.fdiv_eq_ediv_of_nonneg _ (by decide : (0 : Int) ≤ 2)]; omega
-theorem normunet_w_pad_hi_eq (m n : Nat) (h : n ≤ m) : normunet_w_pad_hi m n = (((m - n + 1) / 2 : Nat) : Int) := by
-  simp only [normunet_w_pad_hi, Int.fdiv_eq_ediv_of_nonneg _ (by decide : (0 : Int) ≤ 2)]; omega
-theorem normunet_h_pad_lo_eq (m n : Nat) (h : n ≤ m) : normunet_h_pad_lo m n = (((m - n) / 2 : Nat) : Int) := by
-  simp only [normunet_h_pad_lo, Int.fdiv_eq_ediv_of_nonneg _ (by decide : (0 : Int) ≤ 2)]; omega
-theorem normunet_h_pad_hi_eq (m n : Nat) (h : n ≤ m) : normunet_h_pad_hi m n = (((m - n + 1) / 2 : Nat) : Int) := by
-  simp only [normunet_h_pad_hi, Int.fdiv_eq_ediv_of_nonneg _ (by decide : (0 : Int) ≤ 2)]; omega
+/-- the pad amounts at `m = mult16 n`: floor and ceiling of half the difference — whatever spelling the source uses
+(`math.floor(d / 2)` / `math.ceil(d / 2)`, `d // 2` / `d - d // 2`, with `m` a parameter or inlined as `((n − 1) | 15) + 1`):
+the equality is arithmetic, proved by `omega` after normalising the bit trick with `pyOr_mult` -/
+theorem normunet_w_pad_lo_eq (n : Nat) : normunet_w_pad_lo (mult16 n) n = (pad16Lo n : Int) := by
+  have := C17L.le_mult16 n
+  simp only [normunet_w_pad_lo, pad16Lo, pyOr_mult, Int.fdiv_eq_ediv_of_nonneg _ (by decide : (0 : Int) ≤ 2)]; omega
+theorem normunet_w_pad_hi_eq (n : Nat) : normunet_w_pad_hi (mult16 n) n = (pad16Hi n : Int) := by
+  have := C17L.le_mult16 n
+  simp only [normunet_w_pad_hi, pad16Hi, pyOr_mult, Int.fdiv_eq_ediv_of_nonneg _ (by decide : (0 : Int) ≤ 2)]; omega
+theorem normunet_h_pad_lo_eq (n : Nat) : normunet_h_pad_lo (mult16 n) n = (pad16Lo n : Int) := by
+  have := C17L.le_mult16 n
+  simp only [normunet_h_pad_lo, pad16Lo, pyOr_mult, Int.fdiv_eq_ediv_of_nonneg _ (by decide : (0 : Int) ≤ 2)]; omega
+theorem normunet_h_pad_hi_eq (n : Nat) : normunet_h_pad_hi (mult16 n) n = (pad16Hi n : Int) := by
+  have := C17L.le_mult16 n
+  simp only [normunet_h_pad_hi, pad16Hi, pyOr_mult, Int.fdiv_eq_ediv_of_nonneg _ (by decide : (0 : Int) ≤ 2)]; omega
 
 /-- the model's pad amounts are these with `m = mult16 n` -/
 theorem pad16_amounts (n : Nat) : pad16Lo n = (mult16 n - n) / 2 ∧ pad16Hi n = (mult16 n - n + 1) / 2 := ⟨rfl, rfl⟩
@@ -87,11 +94,15 @@ theorem even1 (n : Nat) : (if (Int.fmod (n : Int) 2 != 0) then (1 : Int) else 0)
   simp only [padEvenOut, Int.fmod_eq_emod_of_nonneg _ (by decide : (0 : Int) ≤ 2), bne_iff_ne, ne_eq]
   split <;> omega
 
-/-- reflect pad by one on odd axes: `F.pad` list `[0, p_w, 0, p_h]` -/
+/-- reflect pad by one on odd axes: `F.pad` list `[0, p_w, 0, p_h]` — whether written `1 if n % 2 != 0 else 0` or `n % 2` -/
 theorem pad_even_list_eq (h w : Nat) :
     mwcnn_pad_list h w = [0, ((padEvenOut w - w : Nat) : Int), 0, ((padEvenOut h - h : Nat) : Int)] ∧
       dub_pad_list h w = [0, ((padEvenOut w - w : Nat) : Int), 0, ((padEvenOut h - h : Nat) : Int)] := by
-  simp only [mwcnn_pad_list, dub_pad_list, even1, and_self]
+  have e2 : ∀ n : Nat, Int.fmod (n : Int) 2 = ((padEvenOut n - n : Nat) : Int) := by
+    intro n; simp only [padEvenOut, Int.fmod_eq_emod_of_nonneg _ (by decide : (0 : Int) ≤ 2)]; omega
+  have e1 : ∀ n : Nat, (if (((padEvenOut n - n : Nat) : Int) != 0) then (1 : Int) else 0) = ((padEvenOut n - n : Nat) : Int) := by
+    intro n; simp only [padEvenOut, bne_iff_ne, ne_eq]; split <;> omega
+  constructor <;> simp only [mwcnn_pad_list, dub_pad_list, e2, e1]
 
 theorem pad_modes_eq : mwcnn_pad_modes = ["reflect"] ∧ dub_pad_modes = ["reflect"] ∧ unet2d_pad_modes = ["reflect"] ∧
     unet3d_pad_modes = ["reflect"] := by decide
